@@ -702,12 +702,8 @@ def run(check, an: Analysis):
                        '(%d return paths)' % n, analysed=n)
         okm = an.method(cls_qn, 'ok')
         # "not triggered yet" is what the constructor stores: None or a module level marker
-        initial = set()
-        for path in an.paths(an.callee(cls_qn, '__init__')):
-            for index, event in enumerate(path.events):
-                if event.kind == 'store' and event.get('path') == 'self._value' and \
-                        event.data.get('value') is not None:
-                    initial.add(rules.value_text(path, index, event['value']))
+        from .c12 import _initial_value
+        initial = _initial_value(an, cls_qn, '_value')[1]
         marker = next(iter(initial)) if len(initial) == 1 else '?'
         try:
             same = (marker == 'None' or marker.isidentifier()) and equivalent_terms(
